@@ -282,7 +282,7 @@ def check_restrict(ctx, stream, big):
     of = ctx.of
     from openfermion.linalg import sparse_tools as st
     rng = rng_for(ctx.seed, 'c10-restrict')
-    nops = budget(ctx.tier, 14, 80)
+    nops = budget(ctx.tier, 30, 250)
     if ctx.drift:
         nops = max(nops, 40)
     oracle, mreqs, mwant = [], [], []
@@ -359,7 +359,7 @@ def check_expectation(ctx, stream, big):
     of = ctx.of
     from openfermion.linalg import sparse_tools as st
     rng = rng_for(ctx.seed, 'c10-expect')
-    nops = budget(ctx.tier, 25, 200)
+    nops = budget(ctx.tier, 50, 600)
     if ctx.drift:
         nops = max(nops, 80)
     reqs, meta = [], []
@@ -438,7 +438,7 @@ def check_numpres(ctx, stream, big):
             for level in range(0, ne + 2):
                 for spin in (False, True):
                     configs.append((n, ne, ref, level, spin))
-    nconf = budget(ctx.tier, 150, 1500)
+    nconf = budget(ctx.tier, 300, 4000)
     if ctx.drift:
         nconf = max(nconf, 600)
     small = [c for c in configs if c[0] <= 3]
@@ -609,7 +609,7 @@ def check_ground(ctx, stream, big):
     of = ctx.of
     from openfermion.linalg import sparse_tools as st
     rng = rng_for(ctx.seed, 'c10-ground')
-    nops = budget(ctx.tier, 6, 40)
+    nops = budget(ctx.tier, 10, 120)
     for _ in range(nops):
         n = rng.choice([2, 3, 4, 4] + ([5] if big else []))
         f = rand_conserving_op(rng, n, nterms=rng.choice([2, 3, 5]))
